@@ -254,10 +254,11 @@ def run(ctx):
                 stream = ("formula" if kind == "formula" else "abbreviation") + "×junk×ops×index×case×SPACED decoration (any white space)"
                 cases.append((stream, s_sp, ("ok", k, r["carries"]), False))
             else:
-                # names: the code tolerates extra white space only AFTER the literal space of `not ` and after `!`
-                # (C16_names_spaced, C16_names_spaced_bang); every other spaced name is compared with the model only
+                # names: the code tolerates extra white space only AFTER the literal space of `not `, BEFORE the one of ` not`
+                # and after `!` (C16_names_spaced, _suffix, _bang); every other spaced name is compared with the model only
                 # (C16_names_spaced_limits: `not\tafter`, `is  after` … are ValueErrors — finding B3)
-                backed = (shape[0] == "!X") or (shape[0] == "not X" and q["pre"][0][1].startswith(" "))
+                backed = ((shape[0] == "!X") or (shape[0] == "not X" and q["pre"][0][1].startswith(" "))
+                          or (shape[0] == "X not" and q["post"][0][1].endswith(" ")))  # C16_names_spaced_suffix
                 stream = "names×case×SPACED decoration (" + ("theorem-backed" if backed else "differential only") + ")"
                 cases.append((stream, s_sp, ("ok", k, True) if backed else None, False))
 
@@ -392,7 +393,8 @@ def run(ctx):
         "by one — around every formula / abbreviated spelling: the key, and the flag Spaced.neg the decoration carries by construction: "
         "`!`, a prefix `not<ws>` or a suffix `<ws>not`); C16_formula_spaced_not_prefix / _not_suffix / _is_prefix / _is_suffix (the "
         "single-space theorems with ANY non-empty white-space string next to the word)",
-        "C16_names_spaced / C16_names_spaced_bang (19 names, every case: any white space after the literal space of `not ` and after `!`); "
+        "C16_names_spaced / C16_names_spaced_suffix / C16_names_spaced_bang (19 names, every case: any white space after the literal "
+        "space of `not `, before the literal space of a trailing ` not`, and after `!`); "
         "C16_names_spaced_limits (kernel-checked witnesses of what the code rejects around names: `not\\tafter`, `after\\tnot`, "
         "`is  after`, `after  is` are ValueErrors, while the same decorations are accepted around `x<y`)",
         "C16_name_case / C16_name_mask (19 names, every case mask, any outer whitespace)",
@@ -400,8 +402,8 @@ def run(ctx):
         "C16_name_spec_decorated (19 names x the 18 decorations of Spec.NP.decorations x every case mask)",
     ]
     ctx.cov["exercised_only"] = [
-        "decorated NAME spellings with extra white space BEFORE a trailing ` not` (e.g. `after \\t not`: accepted by the code, "
-        "differential run only), and the spaced NAME spellings the code rejects (any white space other than the literal space next to "
+        "spaced NAME spellings outside C16_names_spaced / _suffix / _bang: combinations with `is` (`is not  after`: accepted) are "
+        "compared with the model only; the spaced NAME spellings the code rejects (any white space other than the literal space next to "
         "`not`, more than the single space next to `is`: ValueError in code and model alike, witnesses in C16_names_spaced_limits — "
         "finding B3, reported, not a violation of a theorem)",
         "Unicode beyond the model alphabet (implementation-only stream: no exception other than ValueError)",
